@@ -27,16 +27,18 @@ DoAnyOf(x) == /\ q.simple = <<>> /\ q.charts # <<>>
               /\ sat' = sat \cup {b \in AllBugs : ChartsHold(x.charts, b)}
               /\ UNCHANGED pairs
               /\ n' = n + 1
-Next == \/ \E x \in Operands : DoAnd(x)
-        \/ \E x \in ChartOperands : DoAnyOf(x)
+Next == /\ n < MaxOps
+        /\ \/ \E x \in Operands : DoAnd(x)
+           \/ \E x \in ChartOperands : DoAnyOf(x)
 Spec == Init /\ [][Next]_vars
-Bound == n <= MaxOps
 
-R == Render(q)
-CPs == ChartPs(R)
-InvWellFormed == /\ UniqueSlots(CPs) /\ SlotShape(CPs) /\ Balanced(CPs)
-                 /\ SlotNums(CPs) = 1..Cardinality(SlotNums(CPs))
-InvRoundTrip  == ParseCharts(CPs) = q.charts /\ ParsePairs(R) = SimplePairs(q)
-InvMeaning    == \A b \in AllBugs : QHolds(ParsePairs(R), ParseCharts(CPs), b) = (b \in sat /\ SimpleHolds(pairs, b))
-InvNorm       == \A b \in AllBugs : ChartsHold(NormTop(q.charts), b) = ChartsHold(q.charts, b)
+InvWellFormed == LET cps == ChartPs(Render(q)) IN
+                 /\ UniqueSlots(cps) /\ SlotShape(cps) /\ Balanced(cps)
+                 /\ SlotNums(cps) = 1..Cardinality(SlotNums(cps))
+InvRoundTrip  == LET r == Render(q) IN ParseCharts(ChartPs(r)) = q.charts /\ ParsePairs(r) = SimplePairs(q)
+InvMeaning    == LET r == Render(q)
+                     pc == ParseCharts(ChartPs(r))
+                     pp == ParsePairs(r)
+                 IN \A b \in AllBugs : QHolds(pp, pc, b) = (b \in sat /\ SimpleHolds(pairs, b))
+InvNorm       == LET nt == NormTop(q.charts) IN \A b \in AllBugs : ChartsHold(nt, b) = ChartsHold(q.charts, b)
 =========================================================================
